@@ -100,6 +100,16 @@ pub fn expect_var(slots: &[StorageSlot], v: &Var) -> Result<(), (String, String)
                 _ => Err(("plain word: entry at offset 0 is missing or of a constructed kind".into(), describe(&here))),
             }
         }
+        Kind::Scaled { .. } => {
+            // one value fills the word: nothing may be reported at a bit offset the code never uses
+            match here.iter().find(|s| s.offset != 0) {
+                Some(s) => Err((
+                    "scaled word: a field is reported at a bit offset although the code multiplies by a constant that is not a power of two".into(),
+                    format!("entry at offset {}: {:?}; all: {}", s.offset, s.typ, describe(&here)),
+                )),
+                None => Ok(()),
+            }
+        }
         Kind::Addr => match here.iter().find(|s| s.offset == 0) {
             Some(s) if is_20_bytes(&s.typ) => Ok(()),
             _ => Err(("address-masked word: no 20-byte entry at offset 0".into(), describe(&here))),
@@ -169,6 +179,7 @@ pub fn expect_var(slots: &[StorageSlot], v: &Var) -> Result<(), (String, String)
 fn kind_name(k: &Kind) -> &'static str {
     match k {
         Kind::Plain => "plain",
+        Kind::Scaled { .. } => "scaled",
         Kind::Addr => "address-masked",
         Kind::Mapping { .. } => "mapping",
         Kind::DynArray { .. } => "dynamic-array",
@@ -182,6 +193,7 @@ pub fn label_truth(t: &Truth, acc: &mut Acc) -> bool {
     for v in &t.vars {
         match &v.kind {
             Kind::Plain => acc.label("kind:plain"),
+            Kind::Scaled { .. } => acc.label("kind:scaled"),
             Kind::Addr => acc.label("kind:addr"),
             Kind::Mapping { keys, const_key, .. } => {
                 acc.label_if(const_key.is_some(), "kind:mapping-constant-key");
